@@ -227,3 +227,33 @@ func H_C07_loopValueStable() {
 }
 
 var _ = reflect.ValueOf
+
+// H_C07_paramScope: a block's parameters are its own variables: a defaulted parameter
+// that the yield does not pass takes its default even when a variable of that name is
+// visible at the call site (in a template scope, the VarMap or the globals), and
+// assigning to it inside the block does not touch the outer variable.
+//
+//gosym:reach rendered
+func H_C07_paramScope() {
+	where := ndChoice("outer", 4) // 0 none, 1 template variable, 2 VarMap, 3 global
+	set := hxSet(nil,
+		"/lib.jet", `{{ block p(a="DEF") }}({{ a }}){{ a = "changed" }}({{ a }}){{ end }}`,
+		"/m.jet", `{{ import "/lib.jet" }}`+c08If(where == 1, `{{ a := "OUT" }}`)+`{{ yield p() }}[{{ isset(a) ? a : "-" }}]`,
+	)
+	vars := make(VarMap)
+	if where == 2 {
+		vars.Set("a", "OUT")
+	}
+	if where == 3 {
+		set.AddGlobal("a", "OUT")
+	}
+	out, err := hxExec(set, "/m.jet", vars, nil)
+	vfReach("rendered")
+	vfAssert(err == nil, "renders")
+	after := "[-]"
+	if where != 0 {
+		after = "[OUT]"
+	}
+	vfNote(out)
+	vfAssert(out == "(DEF)(changed)"+after, "a block parameter is local to the block; outer variables of the same name are neither read nor written")
+}
